@@ -92,6 +92,20 @@ def probe(m, ffi, lib):
             lib.c33_dirty_stack()
             return int(getattr(lib, fname)(*args))
         res["ptrcalls"]["%d:%s" % (i, fname)] = outcome(call, ident)
+    if m.get("ret_seq"):
+        vals = m["ret_seq"]
+
+        def seq():
+            rs = [lib.c33_mk(v, v * 10) for v in vals]          # every result kept
+            us = [lib.c33_mku(v * 7) for v in vals]
+            first = rs[0]
+            more = [lib.c33_mk(1000 + v, 5) for v in vals]      # later calls must not disturb earlier results
+            shared = any(a is b for i, a in enumerate(rs + more) for b in (rs + more)[i + 1:]) or \
+                any(a is b for i, a in enumerate(us) for b in us[i + 1:])
+            return dict(structs=[[r.a, r.b, r.c] for r in rs], unions=[u.l for u in us], shared=shared,
+                        pass_first=int(lib.c33_pp_val(rs[0])), pass_first_union=int(lib.c33_pu_val(us[0])),
+                        kept_after_more=[first.a, first.b, first.c])
+        res["retseq"] = outcome(seq, ident)
     return res
 
 
